@@ -237,12 +237,12 @@ partial def parsBelowL : List Xml → List Xml
   | k :: ks => parsBelow k ++ parsBelowL ks
 end
 
-/-- `{"op":"runs", …package…}` (html off): for every paragraph of the main part that contains no
-paragraph, cell or note and is not a list item, the run strings and the comment ranges (relative to
-the paragraph's first string) that the run-string machine `runsOfL` prescribes -/
+/-- `{"op":"runs", …package…, "html": b}`: for every paragraph of the main part that contains no
+paragraph, cell or note and is not a list item, the runs (tags, text), their renderings and the
+comment ranges (relative to the paragraph's first run) that the run machine `runsOfL` prescribes -/
 def handleRuns (j : Json) : Except String Json := do
   let a ← archiveOfJson j
-  let o : Opts := { html := false, dup := true }
+  let o : Opts := { html := (j.getObjValAs? Bool "html").toOption.getD false, dup := true }
   match a.files with
   | .error e => pure (Json.mkObj [("err", .str (errName e))])
   | .ok files =>
@@ -254,9 +254,11 @@ def handleRuns (j : Json) : Except String Json := do
         let cfg : PartCfg := { cr.1 with rels := rels }
         let ps := (parsBelow cr.2).filter fun p => simpleL p.kids && (bulletFmt p).1.isNone
         let out := ps.map fun p =>
-          let res := runsOfL cfg 0 (linksOf cfg num false) p.kids ⟨([], []), []⟩
+          let res := runsOfL cfg 0 (linksOf cfg num false) p.kids ⟨RState.init, []⟩
           Json.mkObj [("elem", match p.id? with | some i => toJson i | none => .null),
-            ("machine", jM (fun st => Json.mkObj [("strings", .arr (st.r.strings.map jStr).toArray),
+            ("machine", jM (fun st => Json.mkObj [
+              ("strings", .arr (st.r.runs.map fun rn => match rn.str with | .ok t => jStr t | .error e => .str ("!" ++ errName e)).toArray),
+              ("styles", .arr (st.r.runs.map fun rn => Json.arr (rn.style.map jStr).toArray).toArray),
               ("ranges", .arr (st.ranges.map fun kv => Json.arr #[jStr kv.1, toJson kv.2.1, toJson kv.2.2]).toArray)]) res)]
         pure (Json.mkObj [("ok", .arr out.toArray), ("path", jStr r.path)])
       | _, _, _ => pure (Json.mkObj [("err", .str "main part cannot be read")])
